@@ -138,33 +138,54 @@ def run(ctx):
         ctx.record('R17.6', f.qualname, 'element used only via .get()', not bad,
                    detail='' if not bad else 'uses outside the dict/Element common protocol: ' + ', '.join(bad), where=where(f))
 
-    # ---------------------------------------------------------------- R17.7 registries
-    dm = mdl.module('document')
-    convs = dm.globals.get('CONVERSIONS')
-    if not isinstance(convs, ast.Dict):
-        raise AnchorMissing('document.CONVERSIONS')
-    reg_doc = {k.value: norm(v) for k, v in zip(convs.keys, convs.values)}
-    fsax = mdl.func('svg_io_sax.SaxDocument.sax_parse')
-    reg_sax = {}
-    for n in ast.walk(fsax.node):
-        if isinstance(n, ast.If) and isinstance(n.test, ast.Compare) and isinstance(n.test.ops[0], ast.Eq):
-            consts = [c.value for c in (n.test.left, n.test.comparators[0]) if isinstance(c, ast.Constant)]
-            names = [c for c in (n.test.left, n.test.comparators[0]) if isinstance(c, ast.Name) and c.id == 'name']
-            if consts and names:
-                for s in n.body:
-                    if isinstance(s, ast.Assign) and isinstance(s.value, ast.Call):
-                        reg_sax[consts[0]] = call_name(s.value)
-    fs2p = mdl.func('svg_to_paths.svg2paths')
-    tags_s2p = set()
-    for n in ast.walk(fs2p.node):
-        if isinstance(n, ast.Call) and call_name(n) == 'getElementsByTagName' and isinstance(n.args[0], ast.Constant):
-            tags_s2p.add(n.args[0].value)
-    tags_s2p.discard('svg')
-    seven = {'path', 'circle', 'ellipse', 'line', 'polyline', 'polygon', 'rect'}
-    ok = set(reg_doc) == seven and reg_sax == reg_doc and tags_s2p == seven
-    ctx.record('R17.7', 'package', 'tag registries agree', ok,
-               detail='' if ok else 'Document %s; SaxDocument %s; svg2paths %s' % (sorted(reg_doc.items()), sorted(reg_sax.items()), sorted(tags_s2p)),
-               where='svgpathtools/document.py', sample={'registry': reg_doc})
+    # ---------------------------------------------------------------- R17.7 registries (semantic: which converter runs for which tag)
+    seven = {'path': 'path2pathd', 'circle': 'ellipse2pathd', 'ellipse': 'ellipse2pathd', 'line': 'line2pathd',
+             'polyline': 'polyline2pathd', 'polygon': 'polygon2pathd', 'rect': 'rect2pathd'}
+
+    def conv_hooks(it):
+        for c in set(seven.values()):
+            it.call_hooks['svg_to_paths.' + c] = (lambda c: (lambda it2, a, k: 'D:' + c))(c)
+
+    def th_reg(it):
+        out = {'doc': {}, 'sax': {}, 's2p': set()}
+        conv_hooks(it)
+        it.call_hooks['parser.parse_transform'] = lambda it2, a, k: ident()
+        it.call_hooks['parser.parse_path'] = lambda it2, a, k: Opaque('parsed:%s' % (a[0],))
+        it.call_hooks['path.transform'] = lambda it2, a, k: a[0]
+        for tag in list(seven) + ['text']:
+            e = Elem(tag, {'id': 'e'})
+            root = Elem('svg', {}, [e])
+            cache = {}
+            res = it.call(it.closure_of('document.flattened_paths'), [_wrap(it, root, cache)], {})
+            out['doc'][tag] = [p.what for p in res]
+            events = [('start', _wrap(it, root, cache)), ('start', _wrap(it, e, cache)), ('end', _wrap(it, e, cache)), ('end', _wrap(it, root, cache))]
+            it.ext_hooks['xml.etree.ElementTree.iterparse'] = lambda it2, a, k, events=events: list(events)
+            doc = it.new_obj('svg_io_sax.SaxDocument')
+            it.call_method(doc, 'sax_parse', 'f.svg')
+            out['sax'][tag] = [t.get('d') for t in doc.attrs['tree']]
+        asked = []
+        stubdoc = Opaque('minidom')
+        stubdoc.attrs['getElementsByTagName'] = PyFunc(lambda it2, a, k: asked.append(a[0]) or [], 'gebtn')
+        stubdoc.attrs['unlink'] = PyFunc(lambda it2, a, k: None, 'unlink')
+        it.ext_hooks['xml.dom.minidom.parse'] = lambda it2, a, k: stubdoc
+        it.ext_hooks['os.path.abspath'] = lambda it2, a, k: a[0]
+        it.call(it.closure_of('svg_to_paths.svg2paths'), ['f.svg'], {})
+        out['s2p'] = set(asked) - {'svg'}
+        return out
+
+    def judge_reg(v):
+        probs = []
+        for tag, conv in seven.items():
+            if v['doc'].get(tag) != ['parsed:D:' + conv]:
+                probs.append('Document: <%s> -> %s (expected %s)' % (tag, v['doc'].get(tag), conv))
+            if v['sax'].get(tag) != ['D:' + conv]:
+                probs.append('SaxDocument: <%s> -> %s (expected %s)' % (tag, v['sax'].get(tag), conv))
+        if v['doc'].get('text') or v['sax'].get('text'):
+            probs.append('an unsupported element is converted')
+        if v['s2p'] != set(seven):
+            probs.append('svg2paths harvests %s' % sorted(v['s2p']))
+        return not probs, '; '.join(probs[:4])
+    ob('R17.7').run(mdl.func('document.flattened_paths'), 'the three readers convert the same 7 tags with the same converters', th_reg, judge_reg)
 
     # ---------------------------------------------------------------- R17.8 lexer
     sm = mdl.module('svg_to_paths')
